@@ -311,7 +311,7 @@ func Run(r *ev.Run) {
 	if r.Thorough() {
 		depth = 5
 	}
-	r.Rule(fmt.Sprintf("E4: explicit-state model of the retry protocol (state = accepted, read/write pass-through, armed-by-HRR, retried, dead); alphabet of 22 whole-record events: client {valid retried hello, hello sealed at seq 0, hello without ECH, other config id, other suite, non-empty enc, corrupt payload, inner SNI changed, inner SNI changed in letter case only, outer SNI changed / absent (sealed consistently), inner ALPN reordered, inner ALPN dropped, CCS, other handshake, alert, application data}, backend {ServerHello, HelloRetryRequest, CCS, other handshake, application data}; EVERY history of length %d (hence every shorter one as a prefix) x 3 first-hello situations {accepted, keys but not accepted, no keys} is replayed on a fresh real Conn and compared with the model after every event (bytes delivered, error class, alert bytes, close). distinct = distinct (world, history)", depth))
+	r.Rule(fmt.Sprintf("E4: explicit-state model of the retry protocol (state = accepted, read/write pass-through, armed-by-HRR, retried, dead); alphabet of 22 whole-record events: client {valid retried hello, hello sealed at seq 0, hello without ECH, other config id, other suite, non-empty enc, corrupt payload, inner SNI changed, inner SNI changed in letter case only, outer SNI changed / absent (sealed consistently), inner ALPN reordered, inner ALPN dropped, CCS, other handshake, alert, application data}, backend {ServerHello, HelloRetryRequest, CCS, other handshake, application data}; EVERY history of length %d (hence every shorter one as a prefix) x 3 first-hello situations {accepted, keys but not accepted, no keys} is replayed on a fresh real Conn and compared with the model after every event (bytes delivered, error class, alert bytes, close). plus (sub-run on the instrumented sources, engine E3) the same protocol with Read and Write running concurrently: see evidence key interleavings. distinct = distinct (world, history)", depth))
 	r.Assume("model written from the property statement; reference sender validated against crypto/tls (C03)", "events are whole records; fragmentation is C07's subject")
 	worlds := buildWorlds()
 	nev := len(worlds[0].events)
@@ -368,6 +368,7 @@ func Run(r *ev.Run) {
 		r.Add("transitions", int64(len(trans)))
 		r.Outcome(fmt.Sprintf("%s: model states=%d transitions=%d", w.name, len(states), len(trans)), int64(total))
 	}
+	interleavings(r)
 	r.Set("traces_validated_against_impl", fullTotal+2*fullTotal/nev)
 	r.Set("history_depth", depth)
 	r.Set("alphabet", nev)
